@@ -84,6 +84,7 @@ StreamsManagerBase<MAX_STREAMS> {
 
     /// Creates the room for a new `Stream`, but returns only its `stream_id`, leaving the `Stream` creation per-se to the caller.
     pub fn create_stream_id(&self) -> u32 {
+        #[cfg(feature = "verif")] crate::verif::yield_point("sm.create.begin");
         self.created_streams_count.fetch_add(1, Relaxed);
         self.used_streams_count.fetch_add(1, Relaxed);
         let stream_id = match self.vacant_streams.consume_movable() {
@@ -212,6 +213,7 @@ StreamsManagerBase<MAX_STREAMS> {
     ///   3) Eventually, a second item is sent: now the queue has length 2 and the send logic will wake consumer #1
     ///   4) Consumer #1, since it was not dropped, will be awaken and will run until the channel is empty again -- consuming both elements.
     pub fn report_stream_dropped(&self, stream_id: u32) {
+        #[cfg(feature = "verif")] crate::verif::yield_point("sm.drop.begin");
         let wakers = unsafe { &mut * self.wakers.get() };
         ogre_sync::lock(&self.wakers_lock);
         wakers[stream_id as usize] = None;
@@ -263,6 +265,7 @@ StreamsManagerBase<MAX_STREAMS> {
             unsafe { *used_streams.get_unchecked_mut(i) = u32::MAX };
         }
         ogre_sync::unlock(&self.streams_lock);
+        #[cfg(feature = "verif")] crate::verif::yield_point("sm.sync.done");
     }
 
     pub async fn flush(&self, timeout: Duration, pending_items_counter: impl Fn() -> u32) -> u32 {
